@@ -399,8 +399,14 @@ func (c Check[C]) Run(t *testing.T) {
 	defer func() {
 		fmt.Printf("phase %s: %d checks requested, %.1fs\n", c.key(), c.Checks, time.Since(t0).Seconds())
 	}()
+	ncase := 0
 	rapid.Check(t, func(rt *rapid.T) {
 		cs := c.Gen(rt)
+		// The library keeps no state between calls; a few unrelated calls of awkward kinds
+		// before every third case make sure no check depends on that being true by luck.
+		if ncase++; ncase%3 == 0 && polluter != nil {
+			polluter(ncase)
+		}
 		err := guard(func() error { return c.Oracle(cs) })
 		if c.Obs != nil {
 			st.observe(c.Obs(cs))
@@ -414,6 +420,9 @@ func (c Check[C]) Run(t *testing.T) {
 		}
 	})
 }
+
+// polluter, when set (pollute_test.go), performs unrelated library calls between cases.
+var polluter func(n int)
 
 // Each runs the oracle on one explicitly enumerated case.
 func (c Check[C]) Each(t *testing.T, cs C) bool {
